@@ -146,6 +146,24 @@ func runC12once(t testing.TB, c C12Case) (key, what string, classes map[string]i
 			oc2.End()
 			oc2.Close()
 		}
+		// a bidirectional request while only the input is attached: both of
+		// its halves are turned away (wait for both, so that none lingers)
+		if ioc2, err := s.OpenIO("/io", "h"); err == nil {
+			s.WaitLines(Wait, func(ls []Line) bool {
+				a, b := false, false
+				for _, l := range ls {
+					if l.Seq > from && strings.Contains(l.CL.Line, "unidirectional") {
+						a = true
+					}
+					if l.Seq > from && strings.Contains(l.CL.Line, "Rejected unexpected input side") {
+						b = true
+					}
+				}
+				return a && b
+			})
+			ioc2.Close()
+			classes["refused-io-while-half-attached"]++
+		}
 		if k, w := mustAccept("half attached, after refused attempts"); k != "" {
 			return k, w, classes
 		}
